@@ -3,6 +3,28 @@
 ALL = [f"C{i:02d}" for i in range(1, 19)]
 
 CHECKS = {
+    "C01": {
+        "category": "model_checking",
+        "text": "Differential bounded symbolic execution: each template program (one per statement form the property lists, "
+                "control flow and data driven by symbolic ints) is run through the real rewrite (tooled, tooled.inplace, probes on "
+                "every listed variable / $x / a focus-free total probe / activate-then-deactivate) and compared with the untouched "
+                "function on outcome, value/exception, yielded sequence, ordered effect log and final state; CrossHair/z3 exhausts the "
+                "path tree of every (template, configuration) case, counterexamples are replayed concretely.",
+        "design_ref": "DESIGN.md section 4, C01",
+        "note": "Program dimension enumerated (template catalogue pv/corpus/templates.py), inputs/paths decided by the solver. "
+                "Trusted: CrossHair's models of int/list/tuple, transform() executed natively.",
+        "technique": "differential bounded symbolic execution (CrossHair + z3) of the real rewritten code vs the untouched function",
+    },
+    "C02": {
+        "category": "model_checking",
+        "text": "Bounded symbolic execution of the real probe pipeline against an independent reference instrumenter (trace twin "
+                "written from the Python language reference): for every template, focus variable and context variable the list "
+                "delivered by probing() must equal the twin's binding history as a formula over symbolic inputs; path trees exhausted.",
+        "design_ref": "DESIGN.md section 4, C02",
+        "note": "Program dimension enumerated (templates x focus x context), inputs/paths by the solver. Trusted: the twin "
+                "(pv/refinst.py), CrossHair models, transform() executed natively.",
+        "technique": "bounded symbolic execution (CrossHair + z3) of probing() vs an independent trace twin",
+    },
     "C12": {
         "category": "model_checking",
         "text": "Unbounded-integer SMT proof (z3, cross-checked by cvc5) that the formulas translated from the "
